@@ -816,9 +816,16 @@ fn select_doc(trivia: &Trivia, sources: &Option<Vec<Chain>>) -> Doc {
     bracketed(
         "! [".to_string(),
         "]",
+        // A source carries its comments like a tuple field does.
         chains
             .iter()
-            .map(|chain| chain_doc(trivia, chain))
+            .map(|chain| {
+                pretty::concat(vec![
+                    trivia.leading_doc(chain.span),
+                    chain_doc(trivia, chain),
+                    trivia.trailing_doc(chain.span),
+                ])
+            })
             .collect(),
         false,
     )
@@ -1338,8 +1345,13 @@ fn visit_term(term: &Term, out: &mut Vec<Anchor>) {
             }
         }
         Term::Spawn(inner, _) => visit_term(inner, out),
+        // The sources of a general `! [ … ]` are nodes of their own (a shorthand's source has no
+        // span), emitted with their trivia by `select_doc`.
         Term::Select(Some(chains), _) => {
             for chain in chains {
+                if select_shorthand(chains).is_none() {
+                    push_anchor(chain.span, out);
+                }
                 visit_chain(chain, out);
             }
         }
